@@ -844,6 +844,7 @@ func runC12(a vh.Args, o *vh.Oracle, r *vh.Result) error {
 		if hangs >= 3 {
 			return errStop
 		}
+		r.Running(c)
 		_, err := c12Check(o, r, c, true, st)
 		if err != nil {
 			return err
@@ -960,10 +961,10 @@ func c12Stress(a vh.Args, r *vh.Result) error {
 	go func() { out, err = cmd.CombinedOutput(); close(done) }()
 	select {
 	case <-done:
-	case <-time.After(120 * time.Second):
+	case <-time.After(45 * time.Second):
 		cmd.Process.Kill()
 		<-done
-		r.Fail("predicate", "dedup/stress-hang", "free-running callers did not finish within 120 s", map[string]interface{}{"conc": "stress"})
+		r.Fail("predicate", "dedup/stress-hang", "free-running callers did not finish within 45 s", map[string]interface{}{"conc": "stress"})
 		return nil
 	}
 	r.Count("stress", true)
